@@ -16,6 +16,7 @@
 #include <csetjmp>
 #include <csignal>
 #include <map>
+#include <utility>
 #include <string>
 #include <sys/time.h>
 #include <vector>
@@ -38,17 +39,23 @@ template<typename... A> static uint64_t helper(A... a) {
   g_calls.push_back(v);
   return mix(v);
 }
+template<size_t> using U64 = uint64_t;
+template<size_t... I> static void* helper_ptr_n(std::index_sequence<I...>) { return (void*)(uint64_t(*)(U64<I>...))helper<U64<I>...>; }
 static void* helper_ptr(size_t n) {
   switch (n) {
-    case 0: return (void*)(uint64_t(*)())helper<>;
-    case 1: return (void*)(uint64_t(*)(uint64_t))helper<uint64_t>;
-    case 2: return (void*)(uint64_t(*)(uint64_t, uint64_t))helper<uint64_t, uint64_t>;
-    case 3: return (void*)(uint64_t(*)(uint64_t, uint64_t, uint64_t))helper<uint64_t, uint64_t, uint64_t>;
-    case 4: return (void*)(uint64_t(*)(uint64_t, uint64_t, uint64_t, uint64_t))helper<uint64_t, uint64_t, uint64_t, uint64_t>;
-    case 5: return (void*)(uint64_t(*)(uint64_t, uint64_t, uint64_t, uint64_t, uint64_t))helper<uint64_t, uint64_t, uint64_t, uint64_t, uint64_t>;
-    case 6: return (void*)(uint64_t(*)(uint64_t, uint64_t, uint64_t, uint64_t, uint64_t, uint64_t))helper<uint64_t, uint64_t, uint64_t, uint64_t, uint64_t, uint64_t>;
-    case 7: return (void*)(uint64_t(*)(uint64_t, uint64_t, uint64_t, uint64_t, uint64_t, uint64_t, uint64_t))helper<uint64_t, uint64_t, uint64_t, uint64_t, uint64_t, uint64_t, uint64_t>;
-    case 8: return (void*)(uint64_t(*)(uint64_t, uint64_t, uint64_t, uint64_t, uint64_t, uint64_t, uint64_t, uint64_t))helper<uint64_t, uint64_t, uint64_t, uint64_t, uint64_t, uint64_t, uint64_t, uint64_t>;
+    case 0: return helper_ptr_n(std::make_index_sequence<0>());
+    case 1: return helper_ptr_n(std::make_index_sequence<1>());
+    case 2: return helper_ptr_n(std::make_index_sequence<2>());
+    case 3: return helper_ptr_n(std::make_index_sequence<3>());
+    case 4: return helper_ptr_n(std::make_index_sequence<4>());
+    case 5: return helper_ptr_n(std::make_index_sequence<5>());
+    case 6: return helper_ptr_n(std::make_index_sequence<6>());
+    case 7: return helper_ptr_n(std::make_index_sequence<7>());
+    case 8: return helper_ptr_n(std::make_index_sequence<8>());
+    case 9: return helper_ptr_n(std::make_index_sequence<9>());
+    case 10: return helper_ptr_n(std::make_index_sequence<10>());
+    case 11: return helper_ptr_n(std::make_index_sequence<11>());
+    case 12: return helper_ptr_n(std::make_index_sequence<12>());
     default: return nullptr;
   }
 }
@@ -76,11 +83,12 @@ struct Builder {
   std::map<std::string, Reg> regs;
   std::map<std::string, BaseMem> stacks;
   std::map<uint64_t, Label> labels;
-  std::map<std::string, InstId> names;
+  std::map<std::string, InstId> names, names_v;
   FuncNode* func = nullptr;
   std::vector<TypeId> arg_types;
   TypeId ret_type = TypeId::kVoid;
   uint64_t next_tag = 1;
+  bool no_exec = false;
   bool is_x86() const { return arch != Arch::kAArch64; }
 
   void check(Error e, const char* what) { if (e != Error::kOk) throw Fail{std::string(what) + ": " + DebugUtils::error_as_string(e)}; }
@@ -100,6 +108,7 @@ struct Builder {
       if (InstAPI::inst_id_to_string(arch, id, InstStringifyOptions::kNone, s) != Error::kOk) break;
       if (s.is_empty()) continue;
       names.emplace(std::string(s.data(), s.size()), id);
+      names_v[std::string(s.data(), s.size())] = id;   // AArch64: SIMD ids repeat the GP mnemonics, the later id is the SIMD one
     }
   }
 
@@ -241,7 +250,43 @@ struct Builder {
       size_t n = w.size() - 2;
       if (n > 6) throw Fail{"too many operands"};
       for (size_t i = 0; i < n; i++) ops[i] = operand(w[i + 2]);
+      InstId id = inst_id(w.at(1));
+      if (!is_x86()) {
+        bool any_vec = false;
+        for (size_t i = 0; i < n; i++) any_vec |= ops[i].is_reg() && ops[i].as<Reg>().is_vec();
+        auto it = names_v.find(w[1]);
+        if (any_vec && it != names_v.end()) id = it->second;
+      }
+      check(cc->emit_op_array(id, ops, n), ("emit " + w[1]).c_str());
+      tag_new_nodes(before);
+    } else if (k == "ik") {
+      // instruction with an AVX-512 mask selector: ik <mnemonic> <k register> <z|m> <operand>*
+      Operand ops[6];
+      size_t n = w.size() - 4;
+      if (n > 6) throw Fail{"too many operands"};
+      for (size_t i = 0; i < n; i++) ops[i] = operand(w[i + 4]);
+      cc->set_extra_reg(reg_view(w.at(2)));
+      if (w.at(3) == "z") cc->add_inst_options(InstOptions::kX86_ZMask);
       check(cc->emit_op_array(inst_id(w.at(1)), ops, n), ("emit " + w[1]).c_str());
+      tag_new_nodes(before);
+    } else if (k == "callx") {
+      // call with an explicit convention and typed arguments (never executed): callx <cdecl|win64|vectorcall> <type=reg|-> <type=operand>*
+      no_exec = true;
+      CallConvId ccid = w.at(1) == "win64" ? CallConvId::kX64Windows : w.at(1) == "vectorcall" ? CallConvId::kVectorCall : CallConvId::kCDecl;
+      FuncSignature sig(ccid);
+      auto split = [](const std::string& t, std::string& ty, std::string& op) { size_t e = t.find('='); ty = t.substr(0, e); op = e == std::string::npos ? "" : t.substr(e + 1); };
+      std::string rty, rop;
+      if (w.at(2) == "-") sig.set_ret(TypeId::kVoid); else { split(w[2], rty, rop); sig.set_ret(type_of(rty)); }
+      size_t nargs = w.size() - 3;
+      std::vector<std::string> aops(nargs);
+      for (size_t i = 0; i < nargs; i++) { std::string ty; split(w[i + 3], ty, aops[i]); sig.add_arg(type_of(ty)); }
+      InvokeNode* inv = nullptr;
+      check(cc->add_invoke_node(Out<InvokeNode*>(inv), is_x86() ? InstId(x86::Inst::kIdCall) : InstId(a64::Inst::kIdBlr), Imm(uint64_t(0x10000 + nargs)), sig), "invoke");
+      for (size_t i = 0; i < nargs; i++) {
+        Operand o = operand(aops[i]);
+        if (o.is_imm()) inv->set_arg(i, o.as<Imm>()); else inv->set_arg(i, o.as<Reg>());
+      }
+      if (w[2] != "-") inv->set_ret(0, reg_view(rop));
       tag_new_nodes(before);
     } else if (k == "jt") {
       JumpAnnotation* ann = cc->new_jump_annotation();
@@ -256,7 +301,15 @@ struct Builder {
       for (size_t i = 0; i < nargs; i++) sig.add_arg(word);
       InvokeNode* inv = nullptr;
       void* target = helper_ptr(nargs);
-      check(cc->add_invoke_node(Out<InvokeNode*>(inv), is_x86() ? InstId(x86::Inst::kIdCall) : InstId(a64::Inst::kIdBlr), Imm(uint64_t(uintptr_t(target))), sig), "invoke");
+      Operand tgt = Imm(uint64_t(uintptr_t(target)));
+      if (!is_x86()) {   // AArch64: `blr` needs the target in a register
+        Reg tr;
+        check(cc->_new_reg_with_name(Out<Reg>(tr), TypeId::kUInt64, nullptr), "new_reg");
+        Operand mops[2] = {tr, Imm(uint64_t(0x10000 + nargs))};   // canonical value (the address itself varies from run to run)
+        check(cc->emit_op_array(inst_id("mov"), mops, 2), "mov target");
+        tgt = tr;
+      }
+      check(cc->add_invoke_node(Out<InvokeNode*>(inv), is_x86() ? InstId(x86::Inst::kIdCall) : InstId(a64::Inst::kIdBlr), tgt, sig), "invoke");
       for (size_t i = 0; i < nargs; i++) {
         Operand o = operand(w[i + 3]);
         if (o.is_imm()) inv->set_arg(i, o.as<Imm>()); else inv->set_arg(i, o.as<Reg>());
@@ -282,6 +335,7 @@ struct Builder {
 struct Dumper {
   Builder& b;
   std::string out;
+  bool post_dump = false;
   explicit Dumper(Builder& b) : b(b) {}
   void tok(const std::string& s) { out += ' '; out += s; }
   static std::string hex(uint64_t v) { return vh::to_hex(v); }
@@ -300,6 +354,7 @@ struct Dumper {
                rw ? uint32_t(rw->op_flags()) : 0u, rw ? (unsigned long long)rw->read_byte_mask() : 0ull, rw ? (unsigned long long)rw->write_byte_mask() : 0ull,
                rw ? (unsigned long long)rw->extend_byte_mask() : 0ull, rw && rw->has_phys_id() ? int(rw->phys_id()) : -1);
       std::string s = buf;
+      if (rw && rw->consecutive_lead_count()) s += ":c" + std::to_string(rw->consecutive_lead_count());
       if (b.is_x86() == false && r.is_vec()) { s += ":e" + hex(r.signature().bits()); }   // a64 element type / index are part of the meaning
       return s;
     }
@@ -363,7 +418,7 @@ struct Dumper {
         tok("C"); tok(std::to_string(tag)); tok(std::string(name.data(), name.size()));
         {
           std::string tg = op_str(inv->target(), nullptr);
-          if (inv->target().is_imm()) for (size_t k = 0; k <= 8; k++) if (uint64_t(uintptr_t(helper_ptr(k))) == inv->target().as<Imm>().value_as<uint64_t>()) tg = "I:helper" + std::to_string(k);
+          if (inv->target().is_imm()) for (size_t k = 0; k <= 12; k++) if (uint64_t(uintptr_t(helper_ptr(k))) == inv->target().as<Imm>().value_as<uint64_t>()) tg = "I:helper" + std::to_string(k);
           tok(tg);
         }
         tok(std::to_string(inv->arg_count()));
@@ -379,7 +434,16 @@ struct Dumper {
       InstRWInfo rw;
       Error e = InstAPI::query_rw_info(b.arch, inst->baseInst(), ops.data(), ops.size(), &rw);
       tok("I"); tok(std::to_string(tag)); tok(std::string(name.data(), name.size())); tok(std::to_string(cf));
-      tok(hex(uint32_t(inst->options()) & ~uint32_t(InstOptions::kReserved | InstOptions::kUnfollow | InstOptions::kOverwrite | InstOptions::kShortForm | InstOptions::kLongForm)));
+      {
+        // the allocated instruction must be a form the ISA has (InstAPI::validate, the library's own strict validator):
+        // a register-to-memory substitution may create one that does not exist
+        std::string o = hex(uint32_t(inst->options()) & ~uint32_t(InstOptions::kReserved | InstOptions::kUnfollow | InstOptions::kOverwrite | InstOptions::kShortForm | InstOptions::kLongForm));
+        if (post_dump) {
+          Error ev = InstAPI::validate(b.arch, inst->baseInst(), ops.data(), ops.size(), ValidationFlags::kNone);
+          if (ev != Error::kOk) o += std::string("!") + DebugUtils::error_as_string(ev);
+        }
+        tok(o);
+      }
       tok(e == Error::kOk ? hex(uint32_t(rw.read_flags())) : "x"); tok(e == Error::kOk ? hex(uint32_t(rw.write_flags())) : "x");
       tok(inst->has_extra_reg() ? reg_name(inst->extra_reg().type(), inst->extra_reg().id()) : "-");
       std::string ann = "-";
@@ -425,10 +489,15 @@ struct Dumper {
 
 static uint8_t g_buf[256 + 64];
 static sigjmp_buf g_jmp;
-static void on_signal(int sig) { siglongjmp(g_jmp, sig); }
+static uint8_t g_fault_bytes[16];
+static void on_signal(int sig, siginfo_t* si, void*) {
+  if (sig == SIGILL && si && si->si_addr) memcpy(g_fault_bytes, si->si_addr, 16);
+  siglongjmp(g_jmp, sig);
+}
 
 static std::string process(const std::string& line) {
   Builder b;
+  bool serialized_ok = false;
   JitRuntime rt;
   std::string result;
   try {
@@ -457,20 +526,24 @@ static std::string process(const std::string& line) {
     if (e != Error::kOk) return std::string("raerr ") + DebugUtils::error_as_string(e);
     d.frame();
     d.tok("POST");
+    d.post_dump = true;
     d.nodes();
+    // serialization of the allocated function through the real assembler of the target (all three architectures)
+    {
+      Error es = Error::kOk;
+      if (b.is_x86()) { x86::Assembler a(&b.code); es = b.cc->serialize_to(&a); b.code.detach(&a); }
+      else { a64::Assembler a(&b.code); es = b.cc->serialize_to(&a); b.code.detach(&a); }
+      d.tok("SER"); d.tok(es == Error::kOk ? "ok" : DebugUtils::error_as_string(es));
+      serialized_ok = es == Error::kOk;
+    }
     result = "ok" + d.out;
     // execution on the host
-    bool can_run = b.arch == Arch::kX64 && Environment::host().arch() == Arch::kX64;
+    bool can_run = b.arch == Arch::kX64 && Environment::host().arch() == Arch::kX64 && !b.no_exec;
     std::string ex;
     for (i++; i < stmts.size(); i++) {
       if (stmts[i][0] != "run") continue;
       if (!can_run) break;
-      if (ex.empty()) {
-        // serialize once
-        x86::Assembler a(&b.code);
-        Error e2 = b.cc->serialize_to(&a);
-        if (e2 != Error::kOk) { ex = " EXEC serr:" + std::string(DebugUtils::error_as_string(e2)); break; }
-      }
+      if (!serialized_ok) break;
       static void* fn = nullptr;
       if (ex.empty()) {
         fn = nullptr;
@@ -480,20 +553,20 @@ static std::string process(const std::string& line) {
       }
       uint8_t* buf = (uint8_t*)((uintptr_t(g_buf) + 63) & ~uintptr_t(63));
       for (size_t k = 0; k < 256; k++) buf[k] = uint8_t(k * 37 + 11);
-      uint64_t a[8] = {0};
-      for (size_t k = 1; k < stmts[i].size() && k <= 8; k++) {
+      uint64_t a[12] = {0};
+      for (size_t k = 1; k < stmts[i].size() && k <= 12; k++) {
         uint64_t v = 0; vh::parse_hex(stmts[i][k], v);
         a[k - 1] = (k - 1 < b.arg_types.size() && b.arg_types[k - 1] == TypeId::kUIntPtr) ? uint64_t(uintptr_t(buf)) : v;
       }
       g_calls.clear();
       // a miscompiled function may loop for ever or divide by zero: 3 s of CPU time, SIGFPE caught
-      struct sigaction sa; memset(&sa, 0, sizeof sa); sa.sa_handler = on_signal; sigemptyset(&sa.sa_mask);
-      sigaction(SIGVTALRM, &sa, nullptr); sigaction(SIGFPE, &sa, nullptr);
+      struct sigaction sa; memset(&sa, 0, sizeof sa); sa.sa_sigaction = on_signal; sa.sa_flags = SA_SIGINFO; sigemptyset(&sa.sa_mask);
+      sigaction(SIGVTALRM, &sa, nullptr); sigaction(SIGFPE, &sa, nullptr); sigaction(SIGILL, &sa, nullptr);
       struct itimerval tv = {{0, 0}, {3, 0}}, off = {{0, 0}, {0, 0}};
       int sig = sigsetjmp(g_jmp, 1);
-      if (sig != 0) { setitimer(ITIMER_VIRTUAL, &off, nullptr); ex += sig == SIGFPE ? " r=SIGFPE,m=,c=" : " r=TIMEOUT,m=,c="; continue; }
+      if (sig != 0) { setitimer(ITIMER_VIRTUAL, &off, nullptr); ex += sig == SIGFPE ? " r=SIGFPE,m=,c=" : sig == SIGILL ? " r=SIGILL:" + vh::bytes_to_hex(g_fault_bytes, 16) + ",m=,c=" : " r=TIMEOUT,m=,c="; continue; }
       setitimer(ITIMER_VIRTUAL, &tv, nullptr);
-      uint64_t r = ((uint64_t(*)(uint64_t, uint64_t, uint64_t, uint64_t, uint64_t, uint64_t, uint64_t, uint64_t))fn)(a[0], a[1], a[2], a[3], a[4], a[5], a[6], a[7]);
+      uint64_t r = ((uint64_t(*)(uint64_t, uint64_t, uint64_t, uint64_t, uint64_t, uint64_t, uint64_t, uint64_t, uint64_t, uint64_t, uint64_t, uint64_t))fn)(a[0], a[1], a[2], a[3], a[4], a[5], a[6], a[7], a[8], a[9], a[10], a[11]);
       setitimer(ITIMER_VIRTUAL, &off, nullptr);
       if (b.ret_type == TypeId::kInt32 || b.ret_type == TypeId::kUInt32) r &= 0xFFFFFFFFull;
       if (b.ret_type == TypeId::kVoid) r = 0;
